@@ -1,7 +1,7 @@
 (* C12 — snapshot export then import reproduces the graph.
    Property theorems only; proofs live in proofs/SnapshotJsonProofs.v. *)
 From Coq Require Import List NArith ZArith Bool.
-From Verif Require Import SnapshotJson SnapshotJsonProofs.
+From Verif Require Import SnapshotJson SnapshotJsonProofs SnapshotJsonWitness.
 Import ListNotations.
 Open Scope N_scope.
 
@@ -31,16 +31,7 @@ Theorem C12_graph_rt : forall narrow norm numstr g,
 Proof. exact graph_rt. Qed.
 
 (* ---- the recorded classes are genuinely violated (faithful model) ---- *)
-Definition rt_holds (g : store) : Prop :=
-  exists g' m c k,
-    import no_narrow (fun s => s) (fun _ => []) empty_store (fst (export g)) (snd (export g)) []
-      = Imported g' c k
-    /\ iso m g g'.
-
-Definition one_node (k : str) (v : pv) : store :=
-  {| nodes := [{| n_id := 1; n_labels := [[65]]; n_row := [(k, v)]; n_col := [(k, v)] |}];
-     edges := []; hier := []; free_n := []; next_n := 2 |}.
-
+(* rt_holds g: importing the export of g into an empty store yields a graph isomorphic to g *)
 (* a node property +infinity comes back as null *)
 Theorem C12_refuted_nonfinite :
   exists g, Known_C12_nonfinite g = true /\ wf_store g /\ ~ rt_holds g.
